@@ -300,6 +300,17 @@ Definition find_prim (name : string) : option (string * string * list (string * 
   | None => None
   end.
 
+(* BipolarParams.__post_init__ (repaired): a Prefixed width / length must not compare `<= 0`
+   (Prefixed.__le__ against to_prefixed(0), i.e. within the comparison tolerance of Model/Prefixed.v) *)
+Definition not_positive (p : pfx) : result bool := u <- unit_prefix ;; Ok (pcmp OLe p (mkP (of_int 0 0) u)).
+Definition positive_check (stored : list (str * value)) (field : string) : result unit :=
+  match str_assoc (of_string field) stored with
+  | Some (VPrefixed p) => b <- not_positive p ;; if b then Error EOther else Ok tt      (* ValueError *)
+  | _ => Ok tt
+  end.
+Definition post_init (pclass : string) (stored : list (str * value)) : result unit :=
+  if String.eqb pclass "BipolarParams" then _ <- positive_check stored "w" ;; positive_check stored "l" else Ok tt.
+
 Definition export_instance (c : call) : result (str * str * list (str * pvalue)) :=
   stored <- store_all (c_params c) ;;
   match c_tgt c with
@@ -308,6 +319,7 @@ Definition export_instance (c : call) : result (str * str * list (str * pvalue))
       | None => Error EMissing
       | Some (ty, pc, fs) =>
           if negb (fields_eqb (prim_fields fs) (call_fields (c_params c))) then Error EExtra
+          else if negb (is_ok (post_init pc stored)) then Error EOther
           else if String.eqb ty "PHYSICAL" then
             ps <- export_params stored ;; Ok (of_string "hdl21.primitives", of_string name, ps)
           else if String.eqb ty "IDEAL" then
